@@ -153,7 +153,8 @@ impl Scenario for C17Api {
                 Ok(s) => {
                     fnv.write(s.as_bytes());
                     if allowed_panic {
-                        violation = Some(Violation { class: "quartile-out-of-range-did-not-panic".into(), detail: format!("step {step} {op:?} returned {s}; the documented behaviour is a panic") });
+                        // the property only *permits* this panic; a tree that returns a value instead holds the property
+                        st.hit("probe.quartile_out_of_range_returned_a_value");
                     }
                 }
                 Err(p) => {
